@@ -152,7 +152,14 @@ def run(ctx):
         raise Infra("negative control: a shifted expected reward was not noticed by the driver")
     s2, s3, ss = hs["e2"]["summary"], hs["e3"]["summary"], hsub["summary"]
     nrec = len([r for r in recs if r["src"] != "control"])
+    # chain level (lead's ledger engine): reward-paying blocks on every branch of the ledger family's trees, built from the
+    # factory's own reward table, must be accepted; a coinbase paying one unit too much or an extra output outside the
+    # table must be refused (rule mutations `cbamount`, `cbextra` of specs/chain/Ledger.tla)
+    import chain_lib
+    chain = chain_lib.run_ledger(ctx, only=["rules", "LedgerGen.quick"])
     ctx.finish("model_checking", dict(
+        chain_level=dict(paths_replayed=chain["cases"], node_calls=chain["calls"], configs=chain["configs"],
+                         attributed_to_other_properties=chain["other"]),
         states=R["e2"].distinct + R["e3"].distinct + R["sub"].distinct + R["bn"].distinct + tstates,
         transitions=R["e2"].generated + R["e3"].generated + R["sub"].generated + R["bn"].generated + tstates,
         traces_validated_against_impl=s2.get("paths", 0) + s3.get("paths", 0) + ss.get("subsidy_cases", 0) + nrec,
